@@ -65,11 +65,23 @@ class UnitsTracer:
 
         @functools.wraps(o_set)
         def set_current_units(self, utype, units):
+            ok = False
             try:
-                return o_set(self, utype, units)
+                r = o_set(self, utype, units)
+                ok = True
+                return r
             finally:
                 if tr.nest == 0:
-                    tr.log("rawset", utype=utype, units=_norm_units(units))
+                    if utype not in ("energy", "length"):
+                        # a unit type outside the projection (frequency,
+                        # temperature, ...): only the saved slot is observed
+                        tr.log("rawset_other", utype=utype)
+                    elif ok:
+                        tr.log("rawset", utype=utype, units=_norm_units(units))
+                    else:
+                        # unknown units: the slot was overwritten before the
+                        # method raised
+                        tr.log("rawset_fail", utype=utype)
 
         @functools.wraps(o_unset)
         def unset_current_units(self, utype):
@@ -81,7 +93,10 @@ class UnitsTracer:
                 raise
             finally:
                 if tr.nest == 0 and ok:
-                    tr.log("rawunset", utype=utype)
+                    if utype not in ("energy", "length"):
+                        tr.log("rawunset_other", utype=utype)
+                    else:
+                        tr.log("rawunset", utype=utype)
 
         def wrap_ctx(cls, kind):
             o_enter = cls.__enter__
